@@ -196,6 +196,13 @@ def varSet (sizeOff fixed cap eSize eBig : Nat) (h : H) (size : Nat) (data : Opt
         { reads := [(sizeOff, sizeOff + 4), (0, fixed), (fixed, crlfEnd m.byte (size - fixed) fixed (cap - fixed - 2))],
           ret := .exact 1, h' := some (rewriteHeader h2) }      -- write_header may leave an error code behind
 
+/-- since "fix: SFC_SET_BROADCAST_INFO / SFC_SET_CART_INFO after audio data could overwrite the audio" a block set again after
+    the audio is accepted only when its normalised text has the size of the block present (SF_TRUE), and refused otherwise (SF_FALSE,
+    SFE_CMD_HAS_DATA, block kept).  Which of the two depends on the normalised length of the caller's text and on the line
+    gen_coding_history would add — modelled in SfModel/Meta.lean (`step`), not here: this model only says "0 or 1". -/
+def lateVar (late : Bool) (r : Res) : Res :=
+  if late then (match r.ret with | .exact 1 => { r with ret := .among [0, 1], err := none } | _ => r) else r
+
 def varGet (stored : Option Nat) (h : H) (size : Nat) (data : Option Mem) : Res :=
   match data with
   | none => { ret := .exact 0, err := some eBadParam, h' := some h }
@@ -434,14 +441,14 @@ def withHandle (h : H) (cmd : Int) (size : Nat) (data : Option Mem) : Res :=
     if ¬ (h.container = cWAV ∨ h.container = cWAVEX ∨ h.container = cRF64) then { ret := .exact 0, err := some 0, h' := sh }
     else if ¬ writable h then { ret := .exact 0, err := some 0, h' := sh }
     else if h.bext = none ∧ h.haveWritten then { ret := .exact 0, err := some eHasData, h' := sh }
-    else varSet bextSizeOff bextFixed bextCap eBextSize eBextBig h size data { h with bext := some bextFixed, metaEpoch := h.metaEpoch + 1 }
+    else lateVar h.haveWritten (varSet bextSizeOff bextFixed bextCap eBextSize eBextBig h size data { h with bext := some bextFixed, metaEpoch := h.metaEpoch + 1 })
   | .k10F0 =>
     varGet h.bext h size data
   | .k1400 =>
     if ¬ (h.container = cWAV ∨ h.container = cRF64) then { ret := .exact 0, err := some 0, h' := sh }
     else if ¬ writable h then { ret := .exact 0, err := some 0, h' := sh }
     else if h.cart = none ∧ h.haveWritten then { ret := .exact 0, err := some eHasData, h' := sh }
-    else varSet cartSizeOff cartFixed cartCap eCartSize eCartBig h size data { h with cart := some cartFixed, metaEpoch := h.metaEpoch + 1 }
+    else lateVar h.haveWritten (varSet cartSizeOff cartFixed cartCap eCartSize eCartBig h size data { h with cart := some cartFixed, metaEpoch := h.metaEpoch + 1 })
   | .k1401 =>
     varGet h.cart h size data
   | .k10CD =>
@@ -463,14 +470,14 @@ def withHandle (h : H) (cmd : Int) (size : Nat) (data : Option Mem) : Res :=
       | none => false30
       | some m =>
         if size < szInt then false30
-        else match h.cues with
-          | some _ => { ret := .exact 1, err := some 0, h' := sh }
-          | none =>
-            let c := rd32 m.byte 0
-            if c ≤ (size - szInt) / szCuePoint then
-              { reads := [(0, szInt), (0, szInt + szCuePoint * c)], ret := .exact 1, err := some 0,
-                h' := some { h with cues := some c, metaEpoch := h.metaEpoch + 1 } }
-            else { reads := [(0, szInt)], ret := .exact 0, err := some eMalloc, h' := sh }
+        else
+          -- since "fix: a second SFC_SET_CUE returned SF_TRUE but kept the first set of cue points" the block is always read and
+          -- replaces the cue points present (before: `some _ => ret 1` without touching the data)
+          let c := rd32 m.byte 0
+          if c ≤ (size - szInt) / szCuePoint then
+            { reads := [(0, szInt), (0, szInt + szCuePoint * c)], ret := .exact 1, err := some 0,
+              h' := some { h with cues := some c, metaEpoch := h.metaEpoch + 1 } }
+          else { reads := [(0, szInt)], ret := .exact 0, err := some eMalloc, h' := sh }
   | .k10D0 =>
     guardEq szInstrument size data sh 0 (some eBadParam) fun _ =>
       if h.hasInstrument then { writes := [(0, szInstrument)], ret := .exact 1, err := some 0, h' := sh }
